@@ -12,6 +12,7 @@ from props.progcases import ProgramSpec
 
 PID = 'C04'
 TIE_MODULES = ['DiffxVerif.Tie.Sections']
+NEEDS = ['sections', 'options', 'text']
 ASSUMPTIONS = [
     'three encodings under which the probe text has pairwise different bytes (utf-8, utf-16, latin1) make a wrong effective encoding observable',
     'expected effective encodings come from harness/specdoc.py (nearest declaring ancestor)',
